@@ -612,3 +612,8 @@ mod tests {
         assert_eq!(offsets.compute_start(42), (1, 27));
     }
 }
+
+// verification hook (guard: cfg(kani), set only by the Kani compiler): harnesses live in /verif/kani
+#[cfg(kani)]
+#[path = "/verif/kani/vfs.rs"]
+mod verif_kani;
